@@ -243,6 +243,19 @@ class Fn:
         statements and switches on a local that b assigns a constant to, only the matching target
         is taken (this is what `matches!(..)` and short-circuit booleans compile to)."""
         t = self.blocks[b]["term"]
+        if t["t"] == "switch":
+            # the scrutinee is assigned a constant in this very block (`if x && false`)
+            l = op_local(t["o"])
+            val = None
+            for s in self.blocks[b]["stmts"]:
+                if s["dst"] == [l]:
+                    k = op_const(s["rv"]["o"][0]) if s["rv"].get("r") == "use" else None
+                    val = k.get("v") if (k and "v" in k) else None
+            if val is not None:
+                for v, tgt in t["targets"]:
+                    if v == val:
+                        return [tgt]
+                return [t["otherwise"]]
         if t["t"] == "goto":
             S = t["to"]
             sb = self.blocks[S]
@@ -505,6 +518,60 @@ class Fn:
             seen.add(x)
             st.extend(d.get(x, ()))
         return seen
+
+    PASS_THROUGH = ("clone", "value", "into", "from", "deref", "deref_mut", "as_ref", "borrow", "to_owned", "unwrap", "expect", "copied", "cloned")
+
+    def nearest_calls(self, local, depth=12):
+        """the calls that *produce* the value in `local`: follow copies/moves/casts/refs backwards; stop at
+        call results (going through pure pass-through adaptors such as clone()/value()/into()); parameters
+        are reported as ("param", n). Far more precise than dep_closure for provenance questions."""
+        out, seen = set(), set()
+        work = [(local, 0)]
+        defs = collections.defaultdict(list)
+        for b in self.blocks:
+            for s in b["stmts"]:
+                if len(s["dst"]) == 1:
+                    defs[s["dst"][0]].append(("stmt", s))
+            t = b["term"]
+            if t["t"] == "call" and len(t["dst"]) == 1:
+                defs[t["dst"][0]].append(("call", t))
+        while work:
+            l, d = work.pop()
+            if l in seen or l is None or d > depth:
+                continue
+            seen.add(l)
+            if 1 <= l <= self.nargs and not defs.get(l):
+                out.add(("param", l))
+                continue
+            for kind, x in defs.get(l, ()):
+                if kind == "stmt":
+                    rv = x["rv"]
+                    if rv.get("r") in ("use", "cast", "un"):
+                        for o in rv["o"]:
+                            if op_local(o) is not None:
+                                work.append((op_local(o), d + 1))
+                            elif op_const(o) is not None:
+                                out.add(("const", str(op_const(o).get("v"))))
+                    elif rv.get("r") in ("ref", "rawptr", "discr"):
+                        work.append((rv["p"][0], d + 1))
+                    elif rv.get("r") == "bin":
+                        for o in rv["o"]:
+                            if op_local(o) is not None:
+                                work.append((op_local(o), d + 1))
+                    elif rv.get("r") == "agg":
+                        for o in rv["o"]:
+                            if op_local(o) is not None:
+                                work.append((op_local(o), d + 1))
+                else:
+                    callee = x["fn"].get("res") or x["fn"].get("def") or "?"
+                    short = callee.rsplit("::", 1)[-1]
+                    if short in self.PASS_THROUGH and x["args"]:
+                        a = op_local(x["args"][0])
+                        if a is not None:
+                            work.append((a, d + 1))
+                            continue
+                    out.add(("call", callee))
+        return out
 
     def named_locals(self, name):
         """locals bound to a user variable called `name` (any scope)"""
